@@ -275,6 +275,11 @@ func runCheck(repo, verif, prop, tier, only string, verbose, writeEvidence bool)
 	sort.Strings(undecided)
 	replayDir := filepath.Join(verif, "out", "replay")
 	os.MkdirAll(replayDir, 0o755)
+	if olds, _ := filepath.Glob(filepath.Join(replayDir, prop+"-*.json")); len(olds) > 0 {
+		for _, f := range olds {
+			os.Remove(f) // replay files of earlier runs of this property
+		}
+	}
 	discharged := 0
 	total := 0
 	for _, n := range order {
